@@ -1,11 +1,11 @@
 package main
 
 import (
-	"runtime"
 	"bytes"
 	"context"
 	"fmt"
 	"os"
+	"runtime"
 )
 
 // cmdDomains drives C05: every endpoint x domain-type prefix class x admin-IP list x source
@@ -20,6 +20,8 @@ func cmdDomains(args []string) int {
 	}
 	rng := NewPRNG(cf.seed)
 	prefixes := [][]byte{domProposer, domAttester, domRandao, {3, 0, 0, 0}, domExit, domSelProof, {1, 0, 0, 1}, {0, 0, 1, 0}, {4, 0, 0, 1}, {1, 1, 0, 0}}
+	// one-byte-off neighbours of the three types the rules single out, at every byte position
+	neighbours := [][]byte{{0, 0, 0, 1}, {0, 1, 0, 0}, {1, 0, 1, 0}, {4, 0, 1, 0}, {4, 1, 0, 0}, {0, 0, 0, 0x80}, {0xff, 0xff, 0xff, 0xff}}
 	adminLists := [][]string{{}, {"10.0.0.1"}, {"10.0.0.1", "10.0.0.7", "192.168.1.1"}, {"2001:db8::1", "10.0.0.1"}}
 	sources := []string{"", "10.0.0.1", "10.0.0.7", "10.0.0.9", "2001:db8::1", "2001:db8::2", "2001:db8:ffff:1::99"}
 	rounds := 2
@@ -42,8 +44,15 @@ func cmdDomains(args []string) int {
 		}
 		epoch := uint64(1)
 		for round := 0; round < rounds; round++ {
-			for _, pre := range prefixes {
-				for _, src := range sources {
+			roundPrefixes := prefixes
+			if round >= 1 {
+				roundPrefixes = append(append([][]byte{}, prefixes...), neighbours...)
+			}
+			for pi, pre := range roundPrefixes {
+				for si, src := range sources {
+					if pi >= len(prefixes) && (si+pi+li)%3 != 0 {
+						continue // the neighbours with a third of the source addresses each
+					}
 					// random suffix (the decision must depend on the first four bytes only)
 					dom := append(append([]byte{}, pre...), rng.Bytes(28)...)
 					if round == 0 {
